@@ -45,15 +45,18 @@ class fixed_scalar_array(base_array):
 
     def __setitem__(self, idx, value):
         if isinstance(idx, slice):
-            self.__setslice__(idx.start, idx.stop, value)
+            self._set_slice(idx, value)
         else:
             value = self._TYPE._check(value)
             self._values[idx] = value
 
     def __setslice__(self, start, stop, values):
-        if len(self._values[start:stop]) != len(values):
+        self._set_slice(slice(start, stop), values)
+
+    def _set_slice(self, idx, values):
+        if len(self._values[idx]) != len(values):
             raise ProphyError("setting slice with different length collection")
-        self._values[start:stop] = map(self._TYPE._check, values)
+        self._values[idx] = [self._TYPE._check(value) for value in values]
 
     def __eq__(self, other):
         return scalar_array_eq(self, other)
@@ -95,15 +98,19 @@ class bound_scalar_array(base_array):
 
     def __setitem__(self, idx, value):
         if isinstance(idx, slice):
-            self.__setslice__(idx.start, idx.stop, value)
+            self._set_slice(idx, value)
         else:
             value = self._TYPE._check(value)
             self._values[idx] = value
 
     def __setslice__(self, start, stop, values):
-        if self._max_len and len(self) + len(values) - len(self._values[start:stop]) > self._max_len:
+        self._set_slice(slice(start, stop), values)
+
+    def _set_slice(self, idx, values):
+        values = [self._TYPE._check(value) for value in values]
+        if self._max_len and len(self) + len(values) - len(self._values[idx]) > self._max_len:
             raise ProphyError("exceeded array limit")
-        self._values[start:stop] = map(self._TYPE._check, values)
+        self._values[idx] = values
 
     def __delitem__(self, idx):
         del self._values[idx]
